@@ -51,6 +51,7 @@ pub fn check_view(view: &dyn ShapeDyn, slice_addr: usize, n: usize, expect: Opti
         }
     }
     let mut lc = None;
+    let mut incons: Option<(&'static str, String)> = None;
     walk(view, &mut |node| {
         if let Some(p) = node.probe() {
             if let Some(cap) = p.cap {
@@ -58,10 +59,28 @@ pub fn check_view(view: &dyn ShapeDyn, slice_addr: usize, n: usize, expect: Opti
                     lc = Some((node.desc().kind(), p.len, cap));
                 }
             }
+            // the accessors of one container agree with each other
+            if incons.is_none() {
+                let k = node.desc().kind();
+                if p.is_empty != (p.len == 0) {
+                    incons = Some((k, format!("is_empty()={} but len()={}", p.is_empty, p.len)));
+                } else if let (Some(cap), Some(full)) = (p.cap, p.is_full) {
+                    if p.len <= cap && full != (p.len == cap) {
+                        incons = Some((k, format!("is_full()={} but len()={} capacity()={}", full, p.len, cap)));
+                    } else if let Some(rem) = p.remaining {
+                        if p.len <= cap && rem != cap - p.len {
+                            incons = Some((k, format!("remaining()={} but len()={} capacity()={}", rem, p.len, cap)));
+                        }
+                    }
+                }
+            }
         }
     });
     if let Some((k, l, c)) = lc {
         bad.push((format!("len-exceeds-capacity:{}", k), format!("len={} capacity={}", l, c)));
+    }
+    if let Some((k, what)) = incons {
+        bad.push((format!("accessors-disagree:{}", k), what));
     }
     if let Err(e) = view.revalidate() {
         bad.push(("own-bytes-do-not-revalidate".to_string(), err_text(&e)));
